@@ -197,8 +197,9 @@ def make_dp(rng, n, nchan, trailing, dtype, pol, use_dask, magnitude):
     # the basis name as the caller may hold it: a literal, a string built at run time, a NumPy str scalar, or after pickling
     how = int(rng.integers(5))
     pol_arg = [pol, "".join(list(pol)), np.str_(pol), pol.upper().lower(), pol][how]
+    # memory layouts a reader or a user can hand over: transposed (GUPPI), column-major, flipped band, every other sample
     sig, desc = gen.make_signal(rng, "DualPolarizationSignal", n, data=x, pol=pol_arg, dask=use_dask,
-                                rate=gen.rand_rate(rng, lo=0, hi=8))
+                                rate=gen.rand_rate(rng, lo=0, hi=8), mem=gen.pick(rng, ["C", "C", "F", "strided", "neg", "offset", "readonly", "transposed"]))
     sub = gen._side_rng(rng).random() < 0.2
     if sub:
         with probes.quiet():
@@ -278,6 +279,14 @@ def wl_pol(ctx, idx, rng):
                 tot = gen.np_data(it).sum(axis=2)
             if np.any(np.abs(tot - c[:, :, 0]) > 16 * eps * np.abs(c[:, :, 0]) + 1e-300):
                 ctx.violation(o, "Stokes I != to_intensity summed over the polarisation axis", None, {"what": "I_vs_intensity"})
+        # names that are not one of I, Q, U, V are refused (never answered with some component)
+        badkey = gen.pick(rng, ["IQ", "QU", "UV", "IQUV", "", "i", "q", "X", "II", " I"])
+        rb, eb = ctx.call(o, lambda: s0[badkey], expect="any", where=f"stokes[{badkey!r}]")
+        ctx.count("oracle[stokes_bad_key]")
+        if eb is None:
+            ctx.violation(o, f"stokes[{badkey!r}] returned a {type(rb).__name__} instead of raising KeyError", None, {"what": "bad_key_accepted"})
+        elif not isinstance(eb, (KeyError, IndexError)):
+            ctx.violation(o, f"stokes[{badkey!r}] raised {type(eb).__name__}, expected KeyError", None, {"what": "bad_key_exc_type"})
         # component access by name, before and after an in-place modification of the Stokes signal
         key = "IQUV"[int(rng.integers(4))]
         k = "IQUV".index(key)
